@@ -17,9 +17,37 @@ def run(tier):
     res.trusted = ["HashSet::insert returns false exactly for a key that is already present", "PasetoClaim::get_key is pure (the calls on one claim inside set_claim return the same string) - true for the 8 claim types of the crate, an obligation on user-defined claims"]
     res.assumptions = ["the history quantifier is removed by an invariant: (flag set <=> some key was inserted twice) and (flag set => every build fails before producing a token); its preservation by every method of PasetoBuilder is what is checked"]
     facts = F.load("all")
-    set_claim(res, facts)
-    monotone(res, facts)
-    if not semantic_build(res, facts, S.entry_points(facts), ("C17.R4", "C17.R2")):
+    # decided over call sequences from default() with the generic builder summarised (rules/builder_sem.py) - independent of how the
+    # duplicate marker and the acknowledgement are represented; the per-method rules on the private fields only when that is undecided
+    from .. import builder_sem
+    seqs = builder_sem.analyse_cached(facts, S.entry_points(facts))
+    prod = S.select(S.entry_points(facts), "prelude", "producer")
+    sc = seqs.get("(set_claim)", (None, None))[0]
+    seq_ok = bool(prod) and all(seqs.get(e.id, (None, None))[0] is not None for e in prod) and sc is not None
+    if seq_ok:
+        for e in prod:
+            for f in seqs[e.id][0]:
+                if f.rule in ("C17.R2", "C17.R4"):
+                    for rid in ((f.rule, "C17.R1") if f.rule == "C17.R2" else (f.rule,)):
+                        res.oblige(f.ok)
+                        if f.ok:
+                            res.inst(rid, f.desc)
+                        else:
+                            res.violate(rid, f.where, f.construct, f.msg, file=f.file, line=f.line)
+        for f in sc:
+            for _i in range(4):
+                res.oblige(f.ok)
+            if f.ok:
+                for K in ("custom key", "nbf", "custom key, second call", "nbf, second call"):
+                    res.inst(f.rule, f.desc + " [%s]" % K)
+            else:
+                res.violate(f.rule, f.where, f.construct, f.msg, file=f.file, line=f.line)
+    else:
+        set_claim(res, facts)
+        monotone(res, facts)
+    if seq_ok:
+        pass
+    elif not semantic_build(res, facts, S.entry_points(facts), ("C17.R4", "C17.R2")):
         ready(res, facts, "C17.R4")
         order(res, facts, S.entry_points(facts), "C17.R4")
     res.floor("C17.R1", 4)
